@@ -30,14 +30,14 @@ EdgeLines(X, ps) ==
              ord \in PermSeqs(LabelsOf(X, pq)), rest \in EdgeLines(X, ps \ {pq})}
 
 InitRT == /\ A = [Q |-> {}] /\ lines = <<>> /\ pos = 0 /\ items = <<>> /\ states = {} /\ trans = <<>> /\ initial = {}
-          /\ final = {} /\ err = "none" /\ ph = "pickA" /\ result = <<>>
+          /\ final = {} /\ err = "none" /\ ph = "pickA" /\ result = <<>> /\ gl = FALSE
 PickA == /\ ph = "pickA" /\ ph' = "print"
          /\ A' \in AllA
-         /\ UNCHANGED <<lines, pos, items, states, trans, initial, final, err, result>>
+         /\ UNCHANGED <<lines, pos, items, states, trans, initial, final, err, result, gl>>
 DoPrint == /\ ph = "print" /\ ph' = "parse"
          /\ \E el \in EdgeLines(A, Pairs(A)) : lines' = Header(A) \o el
          /\ pos' = 1
-         /\ UNCHANGED <<A, items, states, trans, initial, final, err, result>>
+         /\ UNCHANGED <<A, items, states, trans, initial, final, err, result, gl>>
 NextRT == PickA \/ DoPrint \/ ((ParseLine \/ EndOfText \/ Build) /\ UNCHANGED A)
 SpecRT == InitRT /\ [][NextRT]_rvars
 
